@@ -154,6 +154,9 @@ def cmd_check(pid, tier, seed):
         print('UNDECIDED property=%s reason=inventory/generator: %s' % (pid, e))
         return 2
     sel = [j for j in jobs if job_serves(j, pid)]
+    only = os.environ.get('VERIF_ONLY')          # development aid: run a subset, write no evidence
+    if only:
+        sel = [j for j in sel if re.search(only, j.name)]
     if not sel:
         print('UNDECIDED property=%s reason=no obligations registered' % pid)
         return 2
@@ -300,7 +303,8 @@ def cmd_check(pid, tier, seed):
     ev = {'property_id': pid, 'tier': tier, 'seed': seed, 'level': level, 'coverage': cov,
           'assumptions': sorted(assumptions), 'wall_s': round(wall, 1), 'violations': len(vio_lines)}
     os.makedirs(os.path.join(VERIF, 'evidence'), exist_ok=True)
-    json.dump(ev, open(os.path.join(VERIF, 'evidence', pid + '.json'), 'w'), indent=1)
+    if not only:
+        json.dump(ev, open(os.path.join(VERIF, 'evidence', pid + '.json'), 'w'), indent=1)
     for l in vio_lines:
         print(l)
     print('property=%s tier=%s named_obligations=%d cbmc_properties=%d discharged=%d undecided=%d known=%d violations=%d wall=%.0fs'
